@@ -24,6 +24,9 @@ Shapes == {
   Sh("undef", B("print ") \o <<120, 121, 122, 32, 43, 32, 49, 10>>, 9, <<120, 121, 122>>, "compile"),      \* print xyz + 1  undefined variable at 'xyz'
   Sh("atend", B("print ") \o <<49, 32, 43>>, 9, <<>>, "atend"),                                            \* print 1 +      at end
   Sh("lexerr", B("print ") \o <<49, 32, 36, 32, 50, 10>>, 9, <<>>, "lex"),                                 \* print 1 $ 2    unknown char: just after '$'
+  Sh("unterm", B("eval ") \o <<34, 97, 98, 99, 10>> \o B("print ") \o <<49, 10>>, 10, <<>>, "lex"),                  \* eval "abc LF print 1   a string ended by the line: just after the LF
+  Sh("untermbs", B("eval ") \o <<34, 97, 98, 99, 92, 10>> \o B("print ") \o <<49, 10>>, 11, <<>>, "lex"),           \* eval "abc\ LF print 1  the escape takes the LF: just after it
+  Sh("untermbseof", B("eval ") \o <<34, 97, 98, 99, 92>>, 10, <<>>, "lex"),                                         \* eval "abc\ at the end of input
   Sh("binop", B("print ") \o <<49, 32, 43, 32, 110, 105, 108, 32, 10>>, 13, <<>>, "runtime"),              \* print 1 + nil  after 'nil'
   Sh("binpar", B("print ") \o <<49, 32, 45, 32, 40, 34, 115, 34, 41, 10>>, 15, <<>>, "runtime"),           \* print 1 - ("s") after ')'
   Sh("unary", B("print ") \o <<45, 32, 34, 115, 34, 10>>, 11, <<>>, "runtime"),                            \* print - "s"    after the string
